@@ -194,6 +194,16 @@ func Atlas() []*spec.Program {
 		root := M("HasEmbC", nil, F("Own", "string"), F("EmbC", "msg:EmbC", embed()))
 		out = append(out, prog("a_embednc", convProps, baseConfig("HasEmbC"), nil, leaf, emb, root))
 	}
+	// --- embedded messages that declare a oneof (holder promoted through the embedding)
+	{
+		br := M("Br", nil, F("S", "string"))
+		emb := M("EmbO", []string{"Choice"}, F("Plain", "string"), F("A", "string", oneof(0)), F("B", "msg:Br", oneof(0)), F("N", "int64", oneof(0)))
+		out = append(out, prog("a_embedoneof", append([]string{"C07"}, convProps...), baseConfig("HasEmbO"), nil, br, emb,
+			M("HasEmbO", nil, F("Own", "string"), F("EmbO", "msg:EmbO", nn(), embed()))))
+		emb2 := M("EmbP", []string{"Pick"}, F("Plain", "string"), F("A", "string", oneof(0)), F("B", "msg:Br", oneof(0)))
+		out = append(out, prog("a_embednoneof", append([]string{"C07"}, convProps...), baseConfig("HasEmbP"), nil, br, emb2,
+			M("HasEmbP", nil, F("Own", "string"), F("EmbP", "msg:EmbP", embed()))))
+	}
 	// --- embedded below the root (F7: option paths)
 	{
 		emb := M("Emb", nil, F("X", "string"), F("Y", "int32"))
